@@ -1,8 +1,296 @@
-// Package c13: stub (property not built yet).
+// Package c13: storage trees whose every leaf sits behind a schedule of transient failures, against
+// the Lean model (Pk.Stores.interp with `.faulty` leaves) and a three-valued reference-map oracle.
+//
+// Line protocol (a superset of C01's; stat and rm take exactly one ref so that the calls each leaf
+// sees are the model's):
+//
+//	cfg <model tree> // <real tree>     real tree: kind[:max][@sched] …, sched a word over n/b/a or "-"
+//	recv k v | fetch k | stat k | rm k | enum after limit
+//	pending                             per leaf: schedule entries not yet consumed
+//	gatestat cap n fail                 StatBlobsParallelHelper on a fresh gate: leaked slots
 package c13
 
-import "verifharness/hk"
+import (
+	"context"
+	"fmt"
+	"os"
+	"strconv"
+	"strings"
+	"time"
 
-func NewExec() func(w []string) string { return func([]string) string { return "bad-op" } }
+	"perkeep.org/pkg/blobserver"
 
-func Run(r *hk.Run) { r.Note("not built yet") }
+	"verifharness/hk"
+	"verifharness/props/c01"
+	"verifharness/stores"
+)
+
+var ctx = context.Background()
+
+// opTimeout is the watchdog: an op that has not answered by then is a `hang`.
+var opTimeout = 3 * time.Second
+
+type Exec struct {
+	env    *stores.Env
+	sto    blobserver.Storage
+	root   *stores.Node
+	leaves []*faultSto
+	dead   bool // an op hung: goroutines of the tree may still be running
+}
+
+func (e *Exec) close() {
+	if e.env != nil {
+		if e.dead {
+			os.RemoveAll(e.env.Dir) // closing could hang as well
+		} else {
+			e.env.Close()
+		}
+	}
+	e.env, e.sto, e.leaves, e.dead = nil, nil, nil, false
+}
+
+// splitTree separates the schedules from the real-tree tokens: leaf order = order of appearance.
+func splitTree(w []string) (clean []string, scheds []string) {
+	for _, t := range w {
+		k, s, has := strings.Cut(t, "@")
+		clean = append(clean, k)
+		if has {
+			scheds = append(scheds, s)
+		}
+	}
+	return
+}
+
+func validSched(s string) bool {
+	if s == "-" {
+		return true
+	}
+	if s == "" {
+		return false
+	}
+	for _, c := range s {
+		if c != 'n' && c != 'b' && c != 'a' {
+			return false
+		}
+	}
+	return true
+}
+
+func countLeaves(n *stores.Node) int {
+	if len(n.Kids) == 0 {
+		return 1
+	}
+	c := 0
+	for _, k := range n.Kids {
+		c += countLeaves(k)
+	}
+	return c
+}
+
+func (e *Exec) cfg(w []string) string {
+	e.close()
+	i := 0
+	for i < len(w) && w[i] != "//" {
+		i++
+	}
+	if i >= len(w)-1 {
+		return "bad-op"
+	}
+	clean, scheds := splitTree(w[i+1:])
+	n, rest, ok := c01.ParseTree(clean)
+	if !ok || len(rest) != 0 || countLeaves(n) != len(scheds) {
+		return "bad-op"
+	}
+	for _, s := range scheds {
+		if !validSched(s) {
+			return "bad-op"
+		}
+	}
+	env, err := stores.NewEnv()
+	if err != nil {
+		return "bad-op"
+	}
+	var leaves []*faultSto
+	sto, err := env.Build(n, func(kind string, s blobserver.Storage) blobserver.Storage {
+		sc := scheds[len(leaves)]
+		if sc == "-" {
+			sc = ""
+		}
+		f := &faultSto{inner: s, sched: []byte(sc)}
+		leaves = append(leaves, f)
+		return f
+	})
+	if err != nil {
+		env.Close()
+		return "bad-op"
+	}
+	e.env, e.sto, e.root, e.leaves = env, sto, n, leaves
+	return "ok"
+}
+
+// watchdog runs f; a call that does not return in time is answered `hang`.
+func watchdog(d time.Duration, f func() string) string {
+	ch := make(chan string, 1)
+	go func() { ch <- hk.Guard(f) }()
+	select {
+	case out := <-ch:
+		return out
+	case <-time.After(d):
+		return "hang"
+	}
+}
+
+func (e *Exec) Do(w []string) string {
+	if len(w) == 0 {
+		return "bad-op"
+	}
+	switch w[0] {
+	case "cfg":
+		return e.cfg(w)
+	case "gatestat":
+		return gateStat(w)
+	case "probe":
+		return probeOp(w)
+	}
+	if e.sto == nil || e.dead {
+		return "bad-op"
+	}
+	switch w[0] {
+	case "pending":
+		if len(w) != 1 {
+			return "bad-op"
+		}
+		parts := []string{"pending"}
+		for _, l := range e.leaves {
+			p, _ := l.pending()
+			parts = append(parts, strconv.Itoa(p))
+		}
+		return strings.Join(parts, " ")
+	case "recv":
+		if len(w) != 3 {
+			return "bad-op"
+		}
+	case "fetch", "stat", "rm":
+		if len(w) != 2 {
+			return "bad-op"
+		}
+	case "enum":
+		if len(w) != 3 {
+			return "bad-op"
+		}
+	default:
+		return "bad-op"
+	}
+	out := watchdog(opTimeout, func() string { return c01.ExecOn(e.sto, w) })
+	if out == "hang" {
+		e.dead = true
+	}
+	return out
+}
+
+// Injected is the number of failures injected so far, PendingFaults those still scheduled.
+func (e *Exec) Injected() int {
+	n := 0
+	for _, l := range e.leaves {
+		n += l.injected()
+	}
+	return n
+}
+
+func (e *Exec) PendingFaults() int {
+	n := 0
+	for _, l := range e.leaves {
+		_, f := l.pending()
+		n += f
+	}
+	return n
+}
+
+func (e *Exec) Calls() []int {
+	var out []int
+	for _, l := range e.leaves {
+		out = append(out, l.calls())
+	}
+	return out
+}
+
+// NewExec returns a fresh interpreter.
+func NewExec() func(w []string) string {
+	e := &Exec{}
+	return func(w []string) string { return hk.Guard(func() string { return e.Do(w) }) }
+}
+
+// ---- trees ---------------------------------------------------------------------------------------------
+
+// leavesOf lists the leaves in build order (depth first, left to right).
+func leavesOf(n *stores.Node, acc *[]*stores.Node) {
+	if len(n.Kids) == 0 {
+		*acc = append(*acc, n)
+		return
+	}
+	for _, k := range n.Kids {
+		leavesOf(k, acc)
+	}
+}
+
+func schedWord(s string) string {
+	if s == "" {
+		return "-"
+	}
+	return s
+}
+
+// modelTokens renders the tree for the Lean driver; next() yields the schedules in leaf order.
+func modelTokens(n *stores.Node, next func() string) string {
+	switch n.Kind {
+	case "mem", "localdisk", "diskpacked":
+		return "faulty " + schedWord(next()) + " mem"
+	case "memcache":
+		return fmt.Sprintf("faulty %s memcache %d", schedWord(next()), n.Max)
+	case "ns":
+		return "ns " + modelTokens(n.Kids[0], next)
+	case "proxy":
+		o := modelTokens(n.Kids[0], next)
+		c := modelTokens(n.Kids[1], next)
+		return fmt.Sprintf("proxy %d %s %s", n.Max, o, c)
+	}
+	name := map[string]string{"overlay": "overlay", "shard": "shard2", "replica": "replica2", "cond": "cond2"}[n.Kind]
+	a := modelTokens(n.Kids[0], next)
+	b := modelTokens(n.Kids[1], next)
+	return name + " " + a + " " + b
+}
+
+func realTokens(n *stores.Node, next func() string) string {
+	k := n.Kind
+	if n.Max != 0 {
+		k += ":" + strconv.Itoa(n.Max)
+	}
+	if len(n.Kids) == 0 {
+		return k + "@" + schedWord(next())
+	}
+	for _, c := range n.Kids {
+		k += " " + realTokens(c, next)
+	}
+	return k
+}
+
+// cfgLine is the cfg op of a tree with the given per-leaf schedules.
+func cfgLine(n *stores.Node, scheds []string) string {
+	i, j := 0, 0
+	return "cfg " + modelTokens(n, func() string { i++; return scheds[i-1] }) + " // " +
+		realTokens(n, func() string { j++; return scheds[j-1] })
+}
+
+func hasKind(n *stores.Node, kinds ...string) bool {
+	for _, k := range kinds {
+		if n.Kind == k {
+			return true
+		}
+	}
+	for _, c := range n.Kids {
+		if hasKind(c, kinds...) {
+			return true
+		}
+	}
+	return false
+}
